@@ -328,7 +328,7 @@ def run_breadlog(built, box, config, check=False, cwd=None, rules=None, shim=Fal
         argv.append("--check")
     if argv_override is not None:
         argv = [built.path] + list(argv_override)
-    env = {"PATH": "/usr/bin:/bin", "RUST_BACKTRACE": "0", "TMPDIR": tmpdir or box.tmp, "HOME": box.outside,
+    env = {"PATH": "/usr/bin:/bin", "RUST_BACKTRACE": "0", "TMPDIR": box.tmp if tmpdir is None else tmpdir, "HOME": box.outside,
            "LANG": "C.UTF-8"}
     rec = Rec()
     rec.rules = rules
@@ -338,7 +338,7 @@ def run_breadlog(built, box, config, check=False, cwd=None, rules=None, shim=Fal
         shimlog = box.logpath("shim")
         env["LD_PRELOAD"] = SHIM_SO
         env["VF_SHIM_ROOT"] = box.root
-        if tmpdir and not tmpdir.startswith(box.root + "/"):
+        if tmpdir and os.path.isabs(tmpdir) and not tmpdir.startswith(box.root + "/"):
             env["VF_SHIM_ROOT2"] = tmpdir
         env["VF_SHIM_LOG"] = shimlog
         if rules:
